@@ -167,6 +167,18 @@ def run(ctx):
             and inst.attrs.get("id") == "" and isinstance(inst.attrs.get("dataset"), Sym) and inst.attrs["dataset"].name == "DATASET"
         r1.check(flags_ok, f"xml_instance.values[{name}]", "create/update flags are '1', id is empty, dataset is the sheet's dataset",
                  inst_fn.loc(), why_fail=f"attrs={ {k: repr(v) for k, v in inst.attrs.items()} }")
+        # the section builders call xml_instance(survey=survey): the node is the same whatever features the survey lists
+        # (the binds do not depend on them, so neither may the attributes they name)
+        for feats in (None, ["create"], ["update"], ["create", "update"], ["create", "update", "offline"]):
+            sv2 = stub.obj()
+            sv2.attrs["entity_features"] = feats
+            try:
+                inst2 = it.call_function(inst_fn, [obj], {"survey": sv2}, None, inst_fn.node)
+                attrs2 = set(map(str, inst2.attrs)) if isinstance(inst2, NodeVal) else None
+            except Raised as r:
+                attrs2 = f"raises {r.exc_name}"
+            r1.check(attrs2 == got_attrs, f"xml_instance[{name}; survey.entity_features={feats}]", "called the way the section builders call it, the entity node has the same attributes", inst_fn.loc(),
+                     why_fail=f"{sorted(attrs2) if isinstance(attrs2, set) else attrs2} vs {sorted(got_attrs)}")
         lab_children = [ch for ch in inst.children if isinstance(ch, NodeVal) and ch.tag == "label"]
         r1.check(len(lab_children) == (1 if lab else 0) and len(inst.children) == len(lab_children),
                  f"xml_instance.label[{name}]", "label child present iff a label is declared", inst_fn.loc(),
